@@ -399,3 +399,30 @@ def return_values_from(fn, block):
         for s2 in succ[b]:
             work.append(s2)
     return out
+
+
+def byte_match_paths(fn, pv):
+    """Decode a `match bytes { CONST_A => .., CONST_B => .. }` lowered to per-index switches.
+    Returns list of (bytes, target block) for every complete chain starting at index 0."""
+    from .prov import strip
+    def idx_of(term):
+        t = strip(term)
+        if t[0] == "index" and t[2][0] == "const" and isinstance(t[2][1], int):
+            return t[2][1]
+        return None
+    out = []
+    for bi, bb in enumerate(fn.blocks):
+        t = bb["t"]
+        if t["k"] != "switch" or t.get("dt") != "u8":
+            continue
+        if idx_of(pv.operand(t["d"], bi, len(bb["s"]))) != 0:
+            continue
+        def walk(b, acc):
+            tt = fn.blocks[b]["t"]
+            if tt["k"] == "switch" and tt.get("dt") == "u8" and idx_of(pv.operand(tt["d"], b, len(fn.blocks[b]["s"]))) == len(acc):
+                for v, tgt in tt["ts"]:
+                    walk(tgt, acc + [int(v)])
+            else:
+                out.append((bytes(acc), b))
+        walk(bi, [])
+    return out
